@@ -809,7 +809,7 @@ fn assignment_means_cases() -> Vec<ScriptCase> {
 
 pub fn run(tier: Tier) -> i32 {
     let ctx = Ctx::new("C16", "model_checking", tier);
-    let maxdepth = tier.pick(5, 7);
+    let maxdepth = tier.pick(6, 7);
     let max_ctx = 3;
     // BFS by history replay: frontier of histories, dedup on (model, canonical impl state)
     let mut seen: HashSet<(Model, String)> = HashSet::new();
